@@ -1,7 +1,35 @@
-(* C12: placeholder until the protocol invariants are proved; a concrete exploration. *)
-From BCL Require Import Model.Proto.
+(* C12: Concurrent internals and concurrent callers are free of data races (model part).
+
+   In Model/Proto.v the shared locations are the line table (written by the lexer on every received
+   chunk, read by the parser for every diagnostic, both under the mutex `mu`) and `prog` (written by
+   the parser before its send on perr, read by the caller after its receive).  A state is racy when
+   lexer and parser are inside the line-table critical section at once.  For this channel/mutex-only
+   system that coincides with the happens-before definition; the Go memory model beyond that and the
+   race detector's view are outside the model (partial).  Concurrent callers: Execute never writes a
+   Prog field -- in the model `execute` is a function of the program (see C16/C19). *)
+From BCL Require Import Model.Proto Proofs.ProtoProofs.
+
+Theorem C12_pipeline_race_free : forall s, reachable s -> racy s = false.
+Proof. exact ProtoProofs.C12_mutex. Qed.
+Print Assumptions C12_pipeline_race_free.
+
+Theorem C12_mutex_holder : forall s, reachable s ->
+  (mu s = Some PL <-> l s = L_unlock) /\ (mu s = Some PP <-> p s = P_unlock) /\
+  (mu s = None <-> l s <> L_unlock /\ p s <> P_unlock) /\ mu s <> Some PR /\ mu s <> Some PC.
+Proof. exact ProtoProofs.C12_mutex_holder. Qed.
+Print Assumptions C12_mutex_holder.
+
+(* the caller never observes an unset prog: the write is ordered before the read by the perr rendezvous *)
+Theorem C12_prog_published : forall s, reachable s -> prog_seen s <> Some false.
+Proof. exact ProtoProofs.C12_prog_published. Qed.
+Print Assumptions C12_prog_published.
+
+Theorem C12_prog_seen_on_return : forall s, reachable s -> returned s = true -> prog_seen s = Some true.
+Proof. exact ProtoProofs.C12_prog_seen_on_return. Qed.
+Print Assumptions C12_prog_seen_on_return.
+
+(* non-vacuity: a run with diagnostics formatted while later chunks arrive reaches its end *)
 Example C12_example :
-  Proto.predict [RdZero; RdData; RdData] [(0, false); (3, false); (12, false)] 1 false 0
-  = (Some ENone, 1, 4, 0, true).
-Proof. vm_compute. reflexivity. Qed.
-Print Assumptions C12_example.
+  let s := exec (init [RdData; RdData; RdData] [(3, false); (3, false); (3, false)] 0 true 4) (round_robin 200) in
+  final s = true /\ racy s = false /\ prog_seen s = Some true.
+Proof. vm_compute. repeat split; reflexivity. Qed.
